@@ -290,7 +290,8 @@ impl ArenaModel {
         let t = self.thorough;
         let nraw = w.live.iter().filter(|b| b.raw).count();
         let raw_sz = |h: u8| w.handle(h).map(|i| (w.live[i].size, w.live[i].align));
-        let held_usable = p.ab;
+        // what the arena really holds for allocation (ledger truth, not its own accounting)
+        let held_usable: usize = w.e().live_blocks(w.arena).map(|b| b.size.saturating_sub(w.k)).sum();
         let lay = |a: &mut Vec<Act>, fallible: bool, sizes: &[usize], als: &[u8]| {
             for &s in sizes {
                 for &al in als {
@@ -396,6 +397,7 @@ impl ArenaModel {
                 lay(&mut a, true, &[1, cap, cap + 1, 449, 5000], &[0, 4]);
                 lay(&mut a, false, &[cap + 1], &[0]);
                 lay(&mut a, true, &[0, 8], &[5]);
+                lay(&mut a, true, &[100], &[7, 12]);
                 a.push(Act::Typed { m: TM::Alloc, ty: Ty::U64 });
                 a.push(Act::Typed { m: TM::TryAlloc, ty: Ty::B449 });
                 a.push(Act::Reset { probe: false });
@@ -599,7 +601,10 @@ impl ArenaModel {
                     a.push(Act::UniTryWith { al, ok, fallible: false });
                     a.push(Act::UniTryWith { al, ok, fallible: true });
                 }
+                a.push(Act::UniSliceFail { al, len: 3, fail_at: 0 });
                 a.push(Act::UniSliceFail { al, len: 3, fail_at: 1 });
+                a.push(Act::UniSliceFail { al, len: 3, fail_at: 2 });
+                a.push(Act::UniSliceFail { al, len: 1, fail_at: 0 });
                 a.push(Act::UniSliceFail { al, len: 3, fail_at: 255 });
                 let big = (cap / ua + 2).min(250) as u8;
                 a.push(Act::UniSliceFail { al, len: big, fail_at: big - 1 });
